@@ -127,3 +127,41 @@ Proof. reflexivity. Qed.
 
 Lemma enc_long_length_pos z : (1 <= length (enc_long z))%nat.
 Proof. pose proof (enc_long_nonempty z). destruct (enc_long z); [congruence|cbn; lia]. Qed.
+
+(* ---- prefix law: a strict prefix of a varint is an end-of-input, never a number ---- *)
+Lemma enc_var_length_le f z : (length (enc_var f z) <= f)%nat.
+Proof.
+  revert z. induction f as [|f IH]; intros z; cbn [enc_var length]; [lia|].
+  destruct (z <=? 127); cbn [length]; [lia|]. specialize (IH (z / 128)). lia.
+Qed.
+
+Lemma enc_var_prefix : forall fe z k fd j acc,
+  (k < length (enc_var fe z))%nat -> (k < fd)%nat -> j + N.of_nat k <= 9 ->
+  dec_var fd j acc (firstn k (enc_var fe z)) = VEof.
+Proof.
+  induction fe as [|f IH]; intros z k fd j acc Hk Hfd Hj; [cbn in Hk; lia|].
+  destruct fd as [|g]; [lia|].
+  cbn [enc_var] in *.
+  assert (Hj9 : (9 <? j) = false) by (apply N.ltb_ge; lia).
+  destruct (z <=? 127) eqn:Hle.
+  - cbn [length] in Hk. assert (k = 0)%nat by lia. subst k. cbn [firstn dec_var]. rewrite Hj9. reflexivity.
+  - destruct k as [|k'].
+    + cbn [firstn dec_var]. rewrite Hj9. reflexivity.
+    + cbn [firstn dec_var]. rewrite Hj9.
+      assert (Hd : (128 + z mod 128) / 128 =? 0 = false).
+      { apply N.eqb_neq. intro H0. apply N.div_small_iff in H0; lia. }
+      rewrite Hd. apply IH.
+      * cbn [length] in Hk. lia.
+      * lia.
+      * lia.
+Qed.
+
+Lemma enc_long_length_le z : (length (enc_long z) <= 10)%nat.
+Proof. unfold enc_long. apply enc_var_length_le. Qed.
+
+Theorem long_prefix_eof z k : (k < length (enc_long z))%nat -> dec_long (firstn k (enc_long z)) = LEof.
+Proof.
+  intros Hk. unfold dec_long, enc_long in *.
+  pose proof (enc_var_length_le 10 (zig z)).
+  rewrite enc_var_prefix; [reflexivity|exact Hk|lia|lia].
+Qed.
